@@ -10,6 +10,7 @@ import (
 	"fmt"
 	"io"
 	"math"
+	"reflect"
 
 	"gorgonia.org/tensor"
 )
@@ -74,6 +75,9 @@ func (s Shape) String() string {
 }
 
 var ErrInvalidType = errors.New("invalid type")
+
+// ErrInvalidPayload is returned when the data of a tensor does not match its declared shape.
+var ErrInvalidPayload = errors.New("tensor payload does not match its dims")
 
 // Dim is a dimension.
 type Dim struct {
@@ -214,7 +218,31 @@ func TensorFromProto(tp *TensorProto) (tensor.Tensor, error) {
 		return nil, err
 	}
 
-	return tensor.New(tensor.WithShape(getDims(tp)...), tensor.WithBacking(values)), nil
+	// The payload must hold exactly one element per position of the declared shape:
+	// gorgonia panics on a mismatch and a trailing partial element would be dropped silently.
+	dims := getDims(tp)
+	nElements := 1
+
+	for _, dim := range dims {
+		if dim <= 0 || nElements > math.MaxInt32/dim {
+			return nil, ErrInvalidPayload
+		}
+
+		nElements *= dim
+	}
+
+	if reflect.ValueOf(values).Len() != nElements {
+		return nil, ErrInvalidPayload
+	}
+
+	t := tensor.New(tensor.WithShape(dims...), tensor.WithBacking(values))
+
+	usesRawData := len(tp.FloatData)+len(tp.Int32Data)+len(tp.Int64Data)+len(tp.DoubleData)+len(tp.Uint64Data) == 0
+	if usesRawData && len(tp.RawData) != nElements*int(t.Dtype().Size()) {
+		return nil, ErrInvalidPayload
+	}
+
+	return t, nil
 }
 
 func getFloatData(tp *TensorProto) ([]float32, error) {
